@@ -5,31 +5,57 @@
 #include "harness.h"
 #include "api.h"
 #include "randhook.h"
-static long live, ctors, dtors; static int negative;
-void verif_item_ctor(uint8_t* self) { live++; ctors++; }
-void verif_item_dtor(uint8_t* self) { live--; dtors++; if (live < 0) negative = 1; }
+static long live, ctors, dtors; static int negative, phantom_dtor, double_ctor;
+/* address-level tracking: a destructor may only run on storage that currently holds a constructed item, a constructor only on storage that does not
+ * (a leaked item and a destructor call on raw storage would otherwise cancel out in the counters) */
+#define NLIVE 24
+static const uint8_t* livep[NLIVE];
+void verif_item_ctor(uint8_t* self) {
+  live++; ctors++; int done = 0;
+  for (int i = 0; i < NLIVE; i++) if (livep[i] == self) double_ctor = 1;
+  for (int i = 0; i < NLIVE; i++) if (!done && livep[i] == 0) { livep[i] = self; done = 1; }
+}
+void verif_item_dtor(uint8_t* self) {
+  live--; dtors++; if (live < 0) negative = 1; int found = 0;
+  for (int i = 0; i < NLIVE; i++) if (!found && livep[i] == self) { livep[i] = 0; found = 1; }
+  if (!found) phantom_dtor = 1;
+}
 void harness(void) {
   void* a = w_vi_new(2); void* b = w_vi_new(2);
   for (int i = 0; i < NA; i++) ASSERT(w_vi_update(a, 10 + i, 1.0 + i) == 0, "update accepted");
   for (int i = 0; i < NB; i++) w_vi_update(b, 100 + i, 2.0 + i);
   ASSERT(w_vi_n(a) == NA && w_vi_num_samples(a) == (NA < 2 ? NA : 2), "n exact, min(n, k) samples");
+#ifdef INJECT_EST   /* A (and with INJECT_EST == 2 also B) is put into the resting estimation-mode state (n = k + 1, gap slot constructed, filled_data_ set) */
+  ASSERT(w_vi_inject_estimation(a, 55) == 0 && w_vi_n(a) == 3 && w_vi_num_samples(a) == 2, "estimation-mode state injected into A");
+#if INJECT_EST == 2
+  ASSERT(w_vi_inject_estimation(b, 66) == 0 && w_vi_n(b) == 3, "estimation-mode state injected into B");
+#endif
+#define NB_EFF (INJECT_EST == 2 ? 3 : NB)
+#define NA_EFF 3
+#else
+#define NB_EFF NB
+#define NA_EFF NA
+#endif
 #if SCRIPT == 0
-  ASSERT(w_vi_assign(a, b) == 0 && w_vi_n(a) == NB, "copy assignment");
+  ASSERT(w_vi_assign(a, b) == 0 && w_vi_n(a) == NB_EFF, "copy assignment");
 #elif SCRIPT == 1
-  ASSERT(w_vi_move_assign(a, b) == 0 && w_vi_n(a) == NB, "move assignment");
+  ASSERT(w_vi_move_assign(a, b) == 0 && w_vi_n(a) == NB_EFF, "move assignment");
 #elif SCRIPT == 2
-  { void* c = w_vi_copy(a); ASSERT(c != 0 && w_vi_n(c) == NA, "copy construction"); w_vi_delete(c); }
+  { void* c = w_vi_copy(a); ASSERT(c != 0 && w_vi_n(c) == NA_EFF, "copy construction"); w_vi_delete(c); }
 #else
   ASSERT(w_vi_reset(a) == 0 && w_vi_n(a) == 0, "reset");
 #endif
   /* one more update, but only while it stays inside the warm-up phase (past it the random slot choice runs a rejection loop whose
    * termination depends on the randomness source: outside this claim) */
-#if ((SCRIPT == 0 || SCRIPT == 1) && NB < 2) || (SCRIPT == 2 && NA < 2) || SCRIPT == 3
+#if ((SCRIPT == 0 || SCRIPT == 1) && NB_EFF < 2) || (SCRIPT == 2 && NA_EFF < 2) || SCRIPT == 3
   ASSERT(w_vi_update(a, 7, 1.5) == 0, "the assigned-to / reset sketch accepts further updates");
 #endif
   w_vi_delete(a); w_vi_delete(b);
   OBSERVE(ctors); OBSERVE(dtors);
   ASSERT(!negative, "no item destroyed more often than constructed");
+  ASSERT(!phantom_dtor, "no destructor runs on storage that holds no constructed item");
+  ASSERT(!double_ctor, "no item constructed over a live item");
+  { int left = 0; for (int i = 0; i < NLIVE; i++) if (livep[i] != 0) left = 1; ASSERT(!left, "no constructed item left behind"); }
   ASSERT(live == 0 && ctors == dtors, "every constructed item has been destroyed exactly once when the last sketch dies");
   WITNESS();
 }
